@@ -33,6 +33,11 @@ def generate(rng, tier):
     n_u = 200 if tier == "quick" else 5000
     for _ in range(n_u):
         cases.append({"stream": "U", "input": {"text": G.garbage(rng)}})
+    # E: edge characters in front of / behind documents, mutated documents and token sequences
+    for _ in range(400 if tier == "quick" else 10000):
+        r = rng.random()
+        t = rng.choice(docs) if r < 0.4 else (G.mutate(rng, rng.choice(docs)) if r < 0.7 else G.random_token_seq(rng, 0, 6))
+        cases.append({"stream": "E", "input": {"text": G.edge_wrap(rng, t)}})
     for name, text in G.scaled(tier):
         cases.append({"stream": "S", "input": {"text": text, "name": name}})
     return cases
